@@ -56,17 +56,18 @@ type evidence struct {
 
 // checkCtx carries what a property check accumulates.
 type checkCtx struct {
-	id        string
-	tier      string
-	seed      int64
-	rng       *rng
-	start     time.Time
-	findings  []finding
-	cov       coverage
-	level     string
-	assume    []string
-	distinct  map[string]bool
-	replaySig string // --replay: look only for this finding, write no evidence
+	id         string
+	tier       string
+	seed       int64
+	rng        *rng
+	start      time.Time
+	findings   []finding
+	cov        coverage
+	level      string
+	assume     []string
+	distinct   map[string]bool
+	replaySig  string // --replay: look only for this finding, write no evidence
+	replayPath string
 }
 
 func (c *checkCtx) thorough() bool { return c.tier == "thorough" }
@@ -108,7 +109,7 @@ func (c *checkCtx) finish() int {
 	if c.replaySig != "" {
 		for _, f := range c.findings {
 			if f.Signature == c.replaySig {
-				fmt.Printf("VIOLATION property=%s replay=%s (reproduced: %s)\n", c.id, "seed "+fmt.Sprint(c.seed), f.Signature)
+				fmt.Printf("VIOLATION property=%s replay=%s\n", c.id, c.replayPath)
 				fmt.Fprintf(os.Stderr, "  %s: %s\n", f.Signature, f.Desc)
 				return 1
 			}
